@@ -274,7 +274,10 @@ fn one_case(seed: u64, case: u64, mode: Mode) -> CaseOut {
         cache: *rng.pick(&[0usize, 8192, 1 << 20]),
     };
     let be = MonBackend::new();
-    be.set_sync_hook(crate::fmt::sync_hook(false));
+    let tiny = crate::report::tiny() > 0;
+    if !tiny {
+        be.set_sync_hook(crate::fmt::sync_hook(false));
+    }
     let db = match cfg.builder().create_with_backend(be.clone()) {
         Ok(d) => d,
         Err(e) => {
@@ -282,7 +285,7 @@ fn one_case(seed: u64, case: u64, mode: Mode) -> CaseOut {
             return out;
         }
     };
-    let ntab = rng.range(2, 6) as usize;
+    let ntab = if tiny { 2 } else { rng.range(2, 6) as usize };
     let keyspace = *rng.pick(&[12u64, 40, 200]);
     let mut tabs: Vec<Tab> = (0..ntab).map(|i| Tab { idx: i, multimap: rng.chance(1, 3), model: Model::new() }).collect();
     macro_rules! tri {
@@ -316,7 +319,7 @@ fn one_case(seed: u64, case: u64, mode: Mode) -> CaseOut {
         }
         for tab in tabs.iter_mut() {
             if rng.chance(3, 4) {
-                tri!(stream(&txn, tab, &mut rng, 25, keyspace, &never, &never), "populate");
+                tri!(stream(&txn, tab, &mut rng, if tiny { 5 } else { 25 }, keyspace, &never, &never), "populate");
             }
         }
         if rng.chance(1, 3) {
@@ -352,7 +355,7 @@ fn one_case(seed: u64, case: u64, mode: Mode) -> CaseOut {
     let sp_refused = AtomicU64::new(0);
     let sp_dropped = AtomicU64::new(0);
     let stop = AtomicBool::new(false);
-    let per_thread = rng.range(10, 90);
+    let per_thread = if tiny { 6 } else { rng.range(10, 90) };
     let n_sp_threads = if matches!(mode, Mode::Stress) { rng.range(1, 3) } else { 0 };
     let sp_calls = rng.range(1, 5);
     let worker_head_start = rng.chance(1, 3);
@@ -758,13 +761,16 @@ pub fn run(rep: &Report) {
     install_hook();
     let (n_scripted, n_stress) = match rep.tier {
         Tier::Quick => (450u64, 1_500u64),
-        Tier::Thorough => (1_800u64, 6_000u64),
+        Tier::Thorough => (9_000u64, 60_000u64),
     };
+    let t = crate::report::tiny();
+    let (n_scripted, n_stress) = if t > 0 { (t, t.div_ceil(2)) } else { (n_scripted, n_stress) };
+    let tiny_off = if t > 0 { rep.seed.wrapping_mul(7919) } else { 0 };
     run_cases(
         rep,
         n_scripted + n_stress,
         |case| {
-            let mode = if case < n_scripted { MODES[(case % MODES.len() as u64) as usize] } else { Mode::Stress };
+            let mode = if case < n_scripted { MODES[((case + tiny_off) % MODES.len() as u64) as usize] } else { Mode::Stress };
             let o = one_case(rep.seed, case, mode);
             rep.eval(1);
             rep.count("ops_applied_concurrently", o.ops);
